@@ -775,4 +775,35 @@ theorem allErrors_eq (os : List SOutcome) : allErrors os = (os.flatMap (·.1), o
   | nil => simp [allErrors]
   | cons o os ih => obtain ⟨t, es⟩ := o; simp [allErrors, ih]
 
+/-! ### `valid` = no bad node anywhere -/
+
+mutual
+theorem valid_eq_not_any : ∀ n : Node, valid n = !anyNode badHere n
+  | .leaf l caps fq fs scope => by simp [valid, anyNode, badHere]
+  | .unknown => by simp [valid, anyNode, badHere]
+  | .malformed => by simp [valid, anyNode, badHere]
+  | .fifo scope agg cs => by
+    simp only [valid, anyNode, badHere, validList_eq_not_any cs]
+    cases anyList badHere cs <;> cases scopeOk Caps.both scope <;> rfl
+  | .prio scope cs => by
+    simp only [valid, anyNode, badHere, validPList_eq_not_any cs]
+    cases anyPList badHere cs <;> cases scopeOk Caps.both scope <;> rfl
+  | .filter c scope t e => by
+    simp only [valid, anyNode, badHere, valid_eq_not_any t, validOpt_eq_not_any e]
+    cases anyNode badHere t <;> cases anyOpt badHere e <;> cases scopeOk Caps.both scope <;> rfl
+theorem validList_eq_not_any : ∀ cs : List Node, validList cs = !anyList badHere cs
+  | [] => by simp [validList, anyList]
+  | c :: cs => by
+    simp only [validList, anyList, valid_eq_not_any c, validList_eq_not_any cs]
+    cases anyNode badHere c <;> cases anyList badHere cs <;> rfl
+theorem validPList_eq_not_any : ∀ cs : List (Int × Node), validPList cs = !anyPList badHere cs
+  | [] => by simp [validPList, anyPList]
+  | (p, c) :: cs => by
+    simp only [validPList, anyPList, valid_eq_not_any c, validPList_eq_not_any cs]
+    cases anyNode badHere c <;> cases anyPList badHere cs <;> rfl
+theorem validOpt_eq_not_any : ∀ e : Option Node, validOpt e = !anyOpt badHere e
+  | none => by simp [validOpt, anyOpt]
+  | some n => by simp only [validOpt, anyOpt, valid_eq_not_any n]
+end
+
 end Martian.Config
